@@ -240,7 +240,7 @@ func TestC17(t *testing.T) {
 		}
 
 		// operations
-		op := rapid.SampledFrom([]string{"cmp", "cmp", "cmp-undeclared", "in", "like", "sort", "colcmp"}).Draw(t, "op")
+		op := rapid.SampledFrom([]string{"cmp", "cmp", "cmp-undeclared", "in", "like", "sort", "colcmp", "predicate", "equals"}).Draw(t, "op")
 		opDesc, fvia := "", "as constructed"
 		full := func() string { return desc() + "\nop " + opDesc + " (filtered frame: " + fvia + ")" }
 		// comparisons, in-lists and like also run on the column as other operations rebuild it (declared enums):
@@ -270,6 +270,69 @@ func TestC17(t *testing.T) {
 			ftab = obs
 		}
 		switch op {
+		case "predicate":
+			// a Go function as comparator: called for (or at least answering for) every row, null rows included
+			k := boundary[rapid.IntRange(0, len(boundary)-1).Draw(t, "predrank")] % size
+			wantNil := rapid.Bool().Draw(t, "prednil")
+			target := decl[k]
+			fn := func(p *string) bool {
+				if p == nil {
+					return wantNil
+				}
+				return *p == target
+			}
+			opDesc = fmt.Sprintf("filter e by func(*string) bool: nil -> %v, %q -> true", wantNil, target)
+			res := qf.Filter(qframe.Filter{Column: "e", Comparator: fn})
+			if res.Err != nil {
+				t.Fatalf("predicate filter failed: %v\n%s", res.Err, full())
+			}
+			var keep []int
+			for r := 0; r < n; r++ {
+				if fn(data[r]) {
+					keep = append(keep, r)
+				}
+			}
+			got, err := hx.Observe(res)
+			if err != nil {
+				t.Fatal(err)
+			}
+			if diff := hx.Diff(tab.Rows(keep), got); diff != "" {
+				t.Fatalf("predicate filter result differs from the model: %s\n%s", diff, full())
+			}
+		case "equals":
+			// the same strings over a value list in another order (first value kept, the rest rotated) are Equal; the same
+			// internal codes over other strings are not
+			if !declared || size < 3 || wantErr != "" {
+				break
+			}
+			decl2 := append([]string{enumConf[0]}, append(append([]string(nil), enumConf[2:]...), enumConf[1])...)
+			same := qframe.New(map[string]interface{}{"e": data, "id": hx.Iota(n)}, newqf.Enums(map[string][]string{"e": decl2}))
+			rank := map[string]int{}
+			for i, v := range enumConf {
+				rank[v] = i
+			}
+			data3 := make([]*string, n)
+			differs := false
+			for r, p := range data {
+				if p != nil {
+					data3[r] = hx.Sp(decl2[rank[*p]]) // the string that has the same code in the other list
+					if *data3[r] != *p {
+						differs = true
+					}
+				}
+			}
+			codes := qframe.New(map[string]interface{}{"e": data3, "id": hx.Iota(n)}, newqf.Enums(map[string][]string{"e": decl2}))
+			base2 := qframe.New(map[string]interface{}{"e": data, "id": hx.Iota(n)}, newqf.Enums(map[string][]string{"e": enumConf}))
+			if same.Err != nil || codes.Err != nil || base2.Err != nil {
+				t.Fatalf("building the comparison frames: %v %v %v\n%s", same.Err, codes.Err, base2.Err, full())
+			}
+			opDesc = "Equals against the same strings over a rotated value list, and against the same codes over other strings"
+			if ab, ba, why := equalsBoth(base2, same); !ab || !ba {
+				t.Fatalf("enum columns holding the same strings (value lists in another order) are not Equal (%v,%v): %s\n%s", ab, ba, why, full())
+			}
+			if ab, ba, _ := equalsBoth(base2, codes); (ab || ba) && differs {
+				t.Fatalf("enum columns holding different strings (but the same internal codes) are Equal (%v,%v)\n%s", ab, ba, full())
+			}
 		case "colcmp":
 			// the column against a second enum column of the same declared list, row by row, on a frame whose index
 			// is not the identity: by rank in the declared list, null never matching except under !=
